@@ -49,7 +49,7 @@ func (e *edCtx) check(c map[string]any, key ed25519.PrivateKey) {
 		if ans != "ok pk="+hx(pub) {
 			e.mismatch(c, "the public key an independent RFC 8032 implementation derives from the seed differs", ans, hx(pub))
 		} else {
-			res.Traces++
+			e.h.trace()
 		}
 	case "sign":
 		msg := unhx(str("msg"))
@@ -59,7 +59,7 @@ func (e *edCtx) check(c map[string]any, key ed25519.PrivateKey) {
 		if o.class != "ok" || ans != "ok sig="+hx(o.out) {
 			e.mismatch(c, "Ed25519 is deterministic: the signature differs from an independent RFC 8032 implementation", ans, o.class+" sig="+hx(o.out))
 		} else {
-			res.Traces++
+			e.h.trace()
 		}
 	case "verify":
 		msg, sig := unhx(str("msg")), unhx(str("sig"))
@@ -71,12 +71,12 @@ func (e *edCtx) check(c map[string]any, key ed25519.PrivateKey) {
 		if !ok || (v == "true") != goValid {
 			e.mismatch(c, "an independent RFC 8032 verifier and VerifyPublicKey disagree on a signature", ans, fmt.Sprintf("valid=%v class=%s", goValid, o.class))
 		} else {
-			res.Traces++
+			e.h.trace()
 		}
 	}
 }
 
-func (h *H) ed25519Interop() {
+func (h *H) ed25519Interop(rng *lib.Rand) {
 	if h.f.Drv == "" {
 		h.res.Note("ed25519 interop: model driver unavailable, skipped")
 		return
@@ -89,7 +89,6 @@ func (h *H) ed25519Interop() {
 	defer d.Close()
 	e := &edCtx{h: h, drv: d}
 	ks := getKeys()
-	rng := h.rng.Fork()
 	order, _ := new(big.Int).SetString("7237005577332262213973186563042994240857116359379907606001950938285454250989", 10)
 	for ki := 0; ki < 2; ki++ {
 		key := ks.ed[ki]
